@@ -48,7 +48,7 @@ RIGHT_POOLS = {
     "point": [(1, 1), (9, 9), (0, 0)],
 }
 LEFT_INDEX_STYLES = ("default", "nonunique", "named", "multi", "range_step")
-RIGHT_INDEX_STYLES = ("default", "labels", "range_step")
+RIGHT_INDEX_STYLES = ("default", "labels", "range_step", "multi")
 LEFT_EXTRA = ("none", "clash")
 SUFFIXES = (("left", "right"), ("a", "b"))
 HOWS = ("inner", "left", "right")
@@ -95,6 +95,10 @@ def right_index(style, n):
         return pd.RangeIndex(n), list(range(n)), None
     if style == "range_step":
         return pd.RangeIndex(0, 3 * n, 3), [3 * j for j in range(n)], None
+    if style == "multi":
+        labs = [("p", 7), ("p", 8), ("q", 7)][:n]
+        mi = pd.MultiIndex.from_tuples(labs, names=["g1", "g2"]) if n else pd.MultiIndex.from_arrays([[], []], names=["g1", "g2"])
+        return mi, labs, ["g1", "g2"]
     labs = ["r0", "r1", "r2"][:n]
     return pd.Index(labs, dtype=object, name="rid"), labs, "rid"
 
@@ -163,19 +167,22 @@ def run_case(col, kind, lrows, rrows, lstyle, rstyle, extra, how, suf, case):
     rname_col = f"name_{rsuf}" if clash else "name"
     nlev = len(lnames)
     idx_left_cols = [f"index_{lsuf}"] if nlev == 1 else [f"index_{lsuf}{k}" for k in range(nlev)]
-    idx_right_col = f"index_{rsuf}"
+    rnames = rname if isinstance(rname, list) else [rname]
+    rlev = len(rnames)
+    idx_right_cols = [f"index_{rsuf}"] if rlev == 1 else [f"index_{rsuf}{k}" for k in range(rlev)]
+    rtup = [list(v) if isinstance(v, tuple) else [v] for v in rlabels]
     # ---------------- expected rows
     exp_rows = []
     if how in ("inner", "left"):
-        exp_cols = ["geometry", "a"] + ([lname_col] if clash else []) + [idx_right_col, rname_col, "w"]
+        exp_cols = ["geometry", "a"] + ([lname_col] if clash else []) + idx_right_cols + [rname_col, "w"]
         for i in range(nl):
             js = [j for j in range(nr) if Mx[i][j]]
             base = list(llabels[i]) + [lgeo[i], 100 + i] + ([f"L{i}"] if clash else [])
             if js:
                 for j in js:
-                    exp_rows.append(base + [rlabels[j], f"R{j}", 0.5 + j])
+                    exp_rows.append(base + rtup[j] + [f"R{j}", 0.5 + j])
             elif how == "left":
-                exp_rows.append(base + [None, None, None])
+                exp_rows.append(base + [None] * rlev + [None, None])
         exp_index_names = lnames
     else:
         exp_cols = idx_left_cols + ["a"] + ([lname_col] if clash else []) + ["geometry", rname_col, "w"]
@@ -184,10 +191,10 @@ def run_case(col, kind, lrows, rrows, lstyle, rstyle, extra, how, suf, case):
             tail = [rgeo[j], f"R{j}", 0.5 + j]
             if is_:
                 for i in is_:
-                    exp_rows.append([rlabels[j]] + list(llabels[i]) + [100 + i] + ([f"L{i}"] if clash else []) + tail)
+                    exp_rows.append(rtup[j] + list(llabels[i]) + [100 + i] + ([f"L{i}"] if clash else []) + tail)
             else:
-                exp_rows.append([rlabels[j]] + [None] * nlev + [None] + ([None] if clash else []) + tail)
-        exp_index_names = [rname]
+                exp_rows.append(rtup[j] + [None] * nlev + [None] + ([None] if clash else []) + tail)
+        exp_index_names = rnames
     # ---------------- observed: the pandas result, and the result with the same left frame held by Dask (2 partitions)
     results = [("", res)]
     if how != "right" and nl >= 2 and lstyle in ("default", "named", "range_step") and (nl * 3 + nr + len(kind)) % 4 == 0:
@@ -329,7 +336,7 @@ def run(ctx):
                     n += 1
                     k = n + seed + ui
                     lstyle = LEFT_INDEX_STYLES[(li + ri + hi + seed) % 5]
-                    rstyle = RIGHT_INDEX_STYLES[(li + hi + k) % 3]
+                    rstyle = RIGHT_INDEX_STYLES[(li + hi + k) % 4]
                     extra = LEFT_EXTRA[(ri + k // 2) % 2]
                     suf = SUFFIXES[(li + ri + k // 3) % 2]
                     if len(lrows) > 4 and lstyle in ("nonunique", "named", "multi"):
